@@ -8,7 +8,7 @@ TECH = "symbolic execution of the repository's go/ssa (own engine symgo) + z3/cv
 
 CHECKS = {
  "C01": dict(
-  text="Bounded symbolic model checking of the real VM: for every generated Numscript program (NumGen bound) every path of vm.Run over unbounded-integer symbolic balances, amounts, caps and overdrafts is executed from go/ssa; the running-balance floor rule is asserted on each emitted posting and decided by z3 for all values at once; 'short sources => ErrInsufficientFund and no result' is checked against the reference reading. Holds for all integers within the program bound; says nothing outside it.",
+  text="Bounded symbolic model checking of the real VM: for every generated Numscript program (NumGen bound) every path of vm.Run over unbounded-integer symbolic balances, amounts, caps and overdrafts is executed from go/ssa; the running-balance floor rule is asserted on each emitted posting and decided by z3 for all values at once; 'short sources => ErrInsufficientFund and no result' is checked against the reference reading. ZZ_C01Save: the same floor rule on six programs that put funds aside with `save` (a difference, a sum, everything; followed by sends with bounded overdrafts), amounts and opening balances arbitrary integers. Holds for all integers within the program bound; says nothing outside it.",
   note="Trusted: the engine's SSA semantics and big.Int->SMT Int mapping (validated by replaying solver witness models natively), z3/cvc5, the native compiler run (program lifted from the current tree), RefSem for the insufficiency clause. Map iteration order fixed to insertion order.",
   ref="DESIGN §5 C01"),
  "C03": dict(
